@@ -30,7 +30,7 @@ static bool eps_zone(double p, double interval, double offset) {
     double q = (p - offset) / interval;
     double xc = std::ceil(q) * interval + offset, xf = std::floor(q) * interval + offset;
     const double eps = 2.220446049250313e-16;
-    return (xc != p && std::fabs(xc - p) <= eps) || (xf != p && std::fabs(xf - p) <= eps);
+    return ((xc != p) & (std::fabs(xc - p) <= eps)) | ((xf != p) & (std::fabs(xf - p) <= eps));     // no branching: one solver term
 }
 
 static PositionMatch pick_match() {
